@@ -143,8 +143,18 @@ void RouterSession::checkValidity(const char *when) {
                     // so the known classes, which speak about the line the search used, are looked up on the un-nudged route()
                     std::vector<Pt> rr = routePts(c.ref->route());
                     curRoute = rr;
-                    for (size_t i = 1; i < rr.size() && sig == "through-shape"; i++) if (segHitsPoly(rr[i - 1], rr[i], sh.poly, 1e-7)) sig += throughShapeClass(c, rr[i - 1], rr[i], sh.poly);
+                    bool rawHits = false;
+                    for (size_t i = 1; i < rr.size() && sig == "through-shape"; i++) if (segHitsPoly(rr[i - 1], rr[i], sh.poly, 1e-7)) { rawHits = true; sig += throughShapeClass(c, rr[i - 1], rr[i], sh.poly); }
                     curRoute.clear();
+                    // KF-C03-f: the raw route keeps clear of the shape; it has an interior segment that lies inside the connector's OWN pinned shape
+                    // (on its way to a pin set back from the boundary), and nudging centred that segment between the far ends of its
+                    // neighbours as if nothing were in the way
+                    if (sig == "through-shape" && !rawHits && rr.size() >= 4) {
+                        bool inside = false;
+                        for (int e = 0; e < 2; e++) if (c.e[e].kind == 1 && shapes.count(c.e[e].shape) && shapes[c.e[e].shape].alive)
+                            for (size_t i = 2; i + 1 < rr.size(); i++) { Pt m{(rr[i - 1].x + rr[i].x) / 2, (rr[i - 1].y + rr[i].y) / 2}; if (ptInPolyClosed(m, shapes[c.e[e].shape].poly)) inside = true; }
+                        if (inside) sig += ":a-segment-inside-the-connectors-own-pinned-shape-was-centred-by-nudging";
+                    }
                 }
                 if (ortho && r.size() == 2 && (c.e[0].dirs != 15 || c.e[1].dirs != 15) && sig == "through-shape") sig += ":direction-restricted-free-end-fallback";
                 std::string rt; for (auto &qq : r) rt += fmt("(%g,%g)", qq.x, qq.y);
